@@ -51,7 +51,9 @@ Section CCSafety.
       destruct (exec_cc_sim F HF boot page1 s id ev pend Hr Hev Henv0 Henv1) as [s1 R1].
       rewrite Hnid in R1.
       pose proof (proj1 (proj2 R1)) as Hn1.
-      assert (Hemit' : forallb (emit_okb id (nodes s1 id)) extra = true) by (rewrite Hn1; exact Hemit).
+      assert (Hemit' : forallb (emit_okb id (nodes s1 id)) extra = true).
+      { rewrite Hn1. rewrite forallb_forall in Hemit. apply forallb_forall. intros m0 Hm0.
+        specialize (Hemit m0 Hm0). unfold emit_cc_okb in Hemit. apply andb_true_iff in Hemit as [Hemit _]. exact Hemit. }
       destruct (reaches_emit F extra s1 id Hemit') as [s2 R2]. rewrite Hn1 in R2.
       pose proof (reaches_trans F _ _ _ _ _ _ _ _ R1 R2) as (A1 & A2 & A3 & A4).
       exists s2. split; [eapply msteps_reachable; eassumption|]. split.
